@@ -642,3 +642,56 @@ pub fn gen(out: &mut dyn std::io::Write, thorough: bool, seed: u64) {
         }
     }
 }
+
+/// extra step: the real `convert_kytea_model` tool on generated KyTea files (whole and truncated) against the library
+/// conversion and against the model the file encodes
+pub fn cli_convert(thorough: bool, seed: u64) {
+    let mut r = Rng::new(seed ^ 0xC17C);
+    let dir = crate::cli::scratch_dir("c17");
+    let mut files: Vec<(String, Vec<u8>, Option<Vec<u8>>)> = vec![];
+    if let Ok(bytes) = std::fs::read("/repo/resources/kytea-model.bin") {
+        files.push(("resources/kytea-model.bin".into(), bytes, None));
+    }
+    let mut buf: Vec<u8> = vec![];
+    gen(&mut buf, false, seed ^ 0x55);
+    let descs: Vec<String> = String::from_utf8_lossy(&buf).lines().filter(|l| l.starts_with("KYE ")).map(|l| l.split(' ').nth(1).unwrap_or("").to_string()).collect();
+    let n = if thorough { descs.len() } else { descs.len().min(16) };
+    for d in descs.iter().take(n) {
+        if let Some(mut k) = AbsKytea::parse(d) {
+            if r.chance(1, 2) {
+                k.junk = r.next() | 1;
+            }
+            let exp = k.expected().ok().map(|m| m.to_bytes());
+            files.push((d.chars().take(120).collect(), k.encode(), exp));
+        }
+    }
+    let mut fails = 0;
+    let s = |p: &std::path::Path| p.display().to_string();
+    for (i, (name, bytes, exp)) in files.iter().enumerate() {
+        let (ip, op) = (dir.join("in.bin"), dir.join("out.zst"));
+        for cut in [bytes.len(), r.below(bytes.len().max(1))] {
+            let _ = std::fs::remove_file(&op);
+            std::fs::write(&ip, &bytes[..cut]).unwrap();
+            let o = crate::cli::run_tool("convert_kytea_model", &["--model-in".into(), s(&ip), "--model-out".into(), s(&op)], b"");
+            let lib = convert(&bytes[..cut]);
+            let got = crate::cli::read_zst(&op);
+            let ok = match lib.strip_prefix("ok:").and_then(unhex) {
+                Some(want) => o.code == Some(0) && got.as_deref() == Some(&want[..]) && (cut < bytes.len() || exp.as_ref().map_or(true, |e| *e == want)),
+                None => o.code != Some(0) && !o.stderr.contains("panicked"),
+            };
+            if !ok {
+                fails += 1;
+                println!(
+                    "FAIL case={i} file={name} first_bytes={cut}/{} tool_exit={:?} library={} output_matches_library={} stderr={}",
+                    bytes.len(),
+                    o.code,
+                    &lib[..lib.len().min(24)],
+                    lib.strip_prefix("ok:").and_then(unhex).map_or(false, |w| got.as_deref() == Some(&w[..])),
+                    o.stderr.lines().last().unwrap_or("").chars().take(160).collect::<String>()
+                );
+            }
+        }
+    }
+    let _ = std::fs::remove_dir_all(&dir);
+    println!("cli_convert files={} failures={fails}", files.len());
+}
